@@ -215,6 +215,27 @@ def execute(ctx, case: dict) -> None:
         if level == "ace":
             ace = Ace(case["text"], platform="ios")
             ace.ungroup_ports()
+            for edit in case.get("edits", []):
+                # history on one object: edit through a sub-object setter, then split again
+                try:
+                    # only a side that already carries a port expression (a Port built without one has no protocol
+                    # and hides whatever is assigned to it: not a state the property talks about)
+                    if edit[0] == "dstport" and ace.dstport.operator:
+                        ace.dstport.line = edit[1]
+                    elif edit[0] == "srcport" and ace.srcport.operator:
+                        ace.srcport.line = edit[1]
+                    elif edit[0] in ("dstport", "srcport"):
+                        continue
+                    elif edit[0] == "srcaddr":
+                        ace.srcaddr.line = edit[1]
+                    elif edit[0] == "option":
+                        ace.option.line = edit[1]
+                    else:
+                        continue
+                except (ValueError, TypeError):
+                    continue
+                ctx.count("edit_then_split_again")
+                ace.ungroup_ports()
         elif level == "aceg":
             aceg = AceGroup(case["text"], platform="ios")
             aceg.ungroup_ports()
@@ -267,7 +288,12 @@ def gen_cases(ctx):
         roll = rng.random()
         if roll < 0.35:
             text, sig = _multi_ace(rng)
-            yield {"level": "ace", "text": text, "sig": sig}
+            case = {"level": "ace", "text": text, "sig": sig}
+            if rng.random() < 0.5:
+                case["edits"] = [rng.choice([["dstport", "eq 7 8 9"], ["dstport", "eq 11"], ["srcport", "eq 5 6"], ["srcport", "range 3 9"],
+                                             ["srcaddr", "host 10.99.0.1"], ["option", ""], ["option", "log"], ["dstport", "neq 5"]])
+                                 for _ in range(rng.randint(1, 3))]
+            yield case
             continue
         heading = rng.choice(["", "", "= "])
         lines = []
@@ -282,6 +308,25 @@ def gen_cases(ctx):
                 text, sig = _multi_ace(rng, allow_neq=rng.random() < 0.5)
                 lines.append(text)
                 sigs.append(sig)
+            elif r2 < 0.7 and sigs and any(" eq " in ln for ln in lines):
+                # a later entry textually equal to one piece of an earlier multi-port eq entry (often with another action between)
+                src_line = rng.choice([ln for ln in lines if " eq " in ln and not ln.startswith("remark")])
+                toks = src_line.split()
+                out, k = [], 0
+                while k < len(toks):
+                    out.append(toks[k])
+                    if toks[k] == "eq":
+                        vals = []
+                        k += 1
+                        while k < len(toks) and toks[k].isdigit():
+                            vals.append(toks[k])
+                            k += 1
+                        out.append(rng.choice(vals) if vals else "1")
+                        continue
+                    k += 1
+                if rng.random() < 0.5:
+                    lines.append(("deny" if out[0] in ("permit",) or (len(out) > 1 and out[1] == "permit") else "permit") + " ip any any")
+                lines.append(" ".join(out))
             else:
                 lines.append(grammar.gen_ace(rng, "ios", "", allow_multi=False, foreign=False, ws=False)["text"])
         level = rng.choice(["aceg", "acl", "acl", "nxos"])
